@@ -10,6 +10,8 @@ discrete time), current value online; the stand-alone monitors are stepped in lo
 import copy
 import random
 
+import json
+
 from .. import specgen as sg
 from .. import monitors as M
 from .. import world
@@ -54,6 +56,19 @@ def gen(rng, tier):
     if rng.random() < 0.12:
         ast = sg.add_near_duplicate(rng, ast)      # two requirements that differ in a late decimal of one constant
     defs, top = sg.modularize(rng, ast, max_subs=3)
+    if rng.random() < 0.1:
+        # an alias sub-specification: a bare constant or a bare variable with a name of its own
+        leaves = sorted(set(json.dumps(x) for n_, a in defs + [['', top]] for x in sg.walk(a)
+                            if (x[0] == 'const' and x[1] >= 0) or x[0] == 'var'))
+        if leaves:
+            leaf = json.loads(leaves[rng.randrange(len(leaves))])
+
+            def al(n):
+                if n == leaf:
+                    return ['ref', 'q0']
+                return sg.with_children(n, [al(c) for c in sg.children(n)])
+            defs = [['q0', leaf]] + [[n_, al(a)] for n_, a in defs]
+            top = al(top)
     extra = None
     if rng.random() < 0.3:
         extra = ['q1', sg.gen_formula(rng, sg.GenCfg(vars=vars_, ops=ops, max_depth=3, max_bound=2))]
